@@ -19,7 +19,11 @@ CONSTANTS N,            \* number of (well prepared) sites, >= 1
           MaxSweeps,    \* DMRG
           ResumePermutes, \* BOOLEAN: does the resume path apply the inverse permutation (mechanism switch)
           AllowCrash,   \* BOOLEAN
-          UpdateAfterRebuild \* BOOLEAN: timestep_complete rewrites the drive terms AFTER a possible make_H rebuild (code: TRUE)
+          UpdateAfterRebuild, \* BOOLEAN: timestep_complete rewrites the drive terms AFTER a possible make_H rebuild (code: TRUE)
+          Dark,         \* number of badly prepared (dark) atoms of the register; the MPS / MPO have N sites, the register N + Dark atoms
+          TablesOnResume \* how the resumed object gets its per-site drive tables: "pickled" (code: they travel in the snapshot),
+                        \* "rebuilt" (from the adapter's data, dark columns removed again), "rebuilt-unfiltered" (seeded variant:
+                        \* rebuilt as in __init__ but without init_dark_qubits)
 Sites == 0..(N - 1)
 Bonds == 0..(N - 2)
 LR == "LR"
@@ -32,9 +36,10 @@ VARIABLES ts, sw, dir, center, nL, nR,       \* control state of the impl object
           disk,                                \* last autosave: a snapshot of the control state (valid iff fileExists)
           phase,                               \* "run" | "crashed" | "resumed" | "post" | "returned" | "raised"
           order,                               \* index space of the per-atom results: "site" | "register"
-          fileExists, path
-ctl == <<ts, sw, dir, center, nL, nR, pair, single, fills, sweeps, conv, driveSet>>
-vars == <<ts, sw, dir, center, nL, nR, pair, single, fills, sweeps, conv, driveSet, disk, phase, order, fileExists, path>>
+          fileExists, path,
+          cols                                 \* number of columns of the drive tables (omega, delta, phi) the impl object holds
+ctl == <<ts, sw, dir, center, nL, nR, pair, single, fills, sweeps, conv, driveSet, cols>>
+vars == <<ts, sw, dir, center, nL, nR, pair, single, fills, sweeps, conv, driveSet, disk, phase, order, fileExists, path, cols>>
 
 Zero(S) == [x \in S |-> 0]
 Snapshot == [ts |-> ts, sw |-> sw, dir |-> dir, center |-> center, nL |-> nL, nR |-> nR,
@@ -47,6 +52,7 @@ Init == /\ ts = 0 /\ sw = 0 /\ dir = LR /\ center = 0 /\ nL = 1 /\ nR = (IF N >=
                    single |-> Zero(Sites), fills |-> 1, sweeps |-> 0, conv |-> FALSE, driveSet |-> TRUE]
         /\ phase = "run" /\ order = (IF Reorder THEN "site" ELSE "register")
         /\ fileExists = FALSE /\ path = "run"
+        /\ cols = N                              \* __init__: columns permuted into site order, then init_dark_qubits removes the dark ones
 
 \* ---- timestep_complete: fill, ts += 1, fresh baths (init_baths)
 \* the environment decides whether the interaction matrix changed (SLM mask end): then make_H rebuilds the MPO with EMPTY
@@ -119,13 +125,14 @@ Progress ==
    /\ \/ (disk' = [ts |-> ts', sw |-> sw', dir |-> dir', center |-> center', nL |-> nL', nR |-> nR', pair |-> pair',
                     single |-> single', fills |-> fills', sweeps |-> sweeps', conv |-> conv', driveSet |-> driveSet'] /\ fileExists' = TRUE)
       \/ UNCHANGED <<disk, fileExists>>
-   /\ UNCHANGED <<phase, order, path>>
+   /\ UNCHANGED <<phase, order, path, cols>>
 
 Crash == /\ AllowCrash /\ phase = "run" /\ fileExists /\ phase' = "crashed"
          /\ UNCHANGED <<ctl, disk, order, fileExists, path>>
 Resume == /\ phase = "crashed" /\ phase' = "resumed" /\ path' = "resume"
           /\ ts' = disk.ts /\ sw' = disk.sw /\ dir' = disk.dir /\ center' = disk.center /\ nL' = disk.nL /\ nR' = disk.nR
           /\ pair' = disk.pair /\ single' = disk.single /\ fills' = disk.fills /\ sweeps' = disk.sweeps /\ conv' = disk.conv /\ driveSet' = disk.driveSet
+          /\ cols' = (IF TablesOnResume = "rebuilt-unfiltered" THEN N + Dark ELSE N)
           /\ UNCHANGED <<disk, order, fileExists>>
 \* MPSBackend._run: loop finished -> remove the autosave file; then the caller's post-processing
 RunLoopDone == /\ phase \in {"run", "resumed"} /\ Finished /\ phase' = "post" /\ fileExists' = FALSE
@@ -141,6 +148,8 @@ BathShape == (N >= 3 /\ phase \in {"run", "resumed"} /\ ~Finished) => (nL = sw +
 CentreFollowsSweep == (N >= 3 /\ ~Finished) => center \in {sw, sw + 1}
 \* C02: no evolution with an MPO whose drive terms were never written (update_H after every make_H rebuild)
 DriveWritten == (phase \in {"run", "resumed"} /\ ~Finished) => driveSet
+\* C26 / C25: the object that continues the run indexes its drive tables by site: one column per site, also after a resume
+TablesMatchSites == (phase \in {"run", "resumed"}) => cols = N
 OneFillPerStep == fills = ts + 1                                      \* C14 / C21: one fill per completed step (+ t = 0)
 StepsInOrder == [][ts' = ts \/ ts' = ts + 1 \/ phase = "crashed"]_vars
 ResumeRestores == [][phase = "crashed" => (ts' = disk.ts /\ fills' = disk.fills)]_vars
